@@ -642,6 +642,13 @@ def o_borrowed(case, lines):
         kinds = [r[6] for r in sec(lines, "B") if r[2] == "attr"]
         if kinds and (kinds[0] == "B") != m["expect_borrowed_attr"]:
             return "attribute storage is %s, the fast-path rule says %s" % (kinds[0], "B" if m["expect_borrowed_attr"] else "O")
+    if m.get("expect_all_borrowed"):
+        # nothing in this document needs normalising: every attribute value and every text is a slice of the input
+        for r in sec(lines, "B"):
+            if r[2] == "attr" and r[6] != "B":
+                return "an attribute value with nothing to normalise is stored owned (%s)" % " ".join(r[:7])
+            if r[2] == "text" and r[3] != "B":
+                return "a text / comment / PI string with nothing to normalise is stored owned (%s)" % " ".join(r[:5])
     return None
 
 
